@@ -20,6 +20,8 @@ def run(ctx, model_ok, deep=False):
          "all sequences of length 1-2 and 500 of length 3 (quick) / all to length 4 (thorough) over {valid, badsig, expired, nodot, onedot, badhdr, noalg, badpay, unsigned, NULL, empty, error_clear}, plus random sequences of length 5-60; reference = same token on a fresh checker", False),
         ("key-lifecycle", S.key_lifecycle_suite, S.falsify_accept,
          "per key type and provider: one keyring slot loaded, used, freed and re-loaded 6 (quick) / 12 (thorough) times with two keys of the same type and size in turn; after every re-load the retired key's token must fail and the current key's must verify", False),
+        ("header-history", S.header_history_suite, S.falsify_accept,
+         "a genuine token, then on the same checker (or another one of the thread) a token whose header has the same length and the same first k base64url characters but names another algorithm / none / no algorithm of the library, or is the first header with characters appended, signed correctly over its own text; then the genuine token again; k and the header length on both sides of 16...4096 and of every size new in the source; HS256 and RS256", False),
         ("programs", S.programs_suite, S.falsify_programs,
          "110 (quick) / 1500 (thorough) random programs of 55-70 API calls over 3 checkers, 3 builders, every pool key (with/without alg attribute, private/public), callbacks, clocks and both providers; every answer compared with the model; 60% of the verifies and generates are asked of a fresh twin configured by the same calls first", False),
         ("builder-reuse", S.builder_reuse_suite, S.falsify_builder_reuse,
